@@ -744,6 +744,8 @@ class ParamAttrConstraint(
             return
         if self.base_attr != other.base_attr:
             return
+        if len(self.param_constrs) != len(other.param_constrs):
+            return
         seen_difference = False
         new_params: list[AttrConstraint] = []
         for x, y in zip(self.param_constrs, other.param_constrs, strict=True):
